@@ -355,6 +355,68 @@ Proof.
 Qed.
 End Shapely.
 
+(* Shapely marks three-dimensional geometries with a Z after the keyword (POINT Z (1 2 3.5));
+   the library's own to_wkt never does.  The reader assigns the third number to z either way. *)
+Definition with_zm (zm : list zml) (w : wkt) : wkt := mkwkt (w_tag w) (w_upper w) zm (w_body w).
+
+Lemma coord_of_LZ : forall c, coord_of [LZ] (tuple_of c) = coord_of [] (tuple_of c).
+Proof. intros [x y z]. unfold tuple_of. cbn. destruct (truthy_z z); reflexivity. Qed.
+
+Lemma mapR_ring_LZ : forall r, mapR (coord_of [LZ]) (wring r) = mapR (coord_of []) (wring r).
+Proof.
+  induction r as [|c r IH]; [reflexivity|]. unfold wring in *. cbn [map mapR].
+  rewrite coord_of_LZ, IH. reflexivity.
+Qed.
+
+Lemma mapR_rings_LZ : forall rs,
+  mapR (mapR (coord_of [LZ])) (map wring rs) = mapR (mapR (coord_of [])) (map wring rs).
+Proof.
+  induction rs as [|r rs IH]; [reflexivity|]. cbn [map mapR]. rewrite mapR_ring_LZ, IH. reflexivity.
+Qed.
+
+Lemma mapR_polys_LZ : forall pss,
+  mapR (mapR (mapR (coord_of [LZ]))) (map (map wring) pss) = mapR (mapR (mapR (coord_of []))) (map (map wring) pss).
+Proof.
+  induction pss as [|p pss IH]; [reflexivity|]. cbn [map mapR]. rewrite mapR_rings_LZ, IH. reflexivity.
+Qed.
+
+Lemma parse_body_LZ : forall orc g,
+  parse_body [LZ] (w_body (write orc None g)) = parse_body [] (w_body (write orc None g)).
+Proof.
+  intros orc g. destruct g; cbn [write w_body parse_body].
+  - change [tuple_of c] with (wring [c]). rewrite mapR_ring_LZ. reflexivity.
+  - rewrite mapR_ring_LZ. reflexivity.
+  - rewrite mapR_rings_LZ. reflexivity.
+  - rewrite mapR_ring_LZ. reflexivity.
+  - rewrite mapR_rings_LZ. reflexivity.
+  - rewrite <- (map_map linear_rings (map wring)). rewrite mapR_polys_LZ. reflexivity.
+  - rewrite mapR_rings_LZ. reflexivity.
+  - rewrite mapR_rings_LZ. reflexivity.
+  - rewrite mapR_rings_LZ. reflexivity.
+  - rewrite mapR_rings_LZ. reflexivity.
+Qed.
+
+Lemma read_LZ : forall half orc g t,
+  WktM.read half t (with_zm [LZ] (write orc None g)) = WktM.read half t (write orc None g).
+Proof.
+  intros half orc g t. unfold WktM.read.
+  assert (G : gate t (with_zm [LZ] (write orc None g)) = gate t (write orc None g)) by reflexivity.
+  rewrite G. destruct (gate t (write orc None g)); [|reflexivity].
+  change (w_zm (with_zm [LZ] (write orc None g))) with [LZ].
+  change (w_body (with_zm [LZ] (write orc None g))) with (w_body (write orc None g)).
+  rewrite parse_body_LZ. destruct g; reflexivity.
+Qed.
+
+Section ShapelyZ.
+Variable shapely : wkt -> wkt.
+(* geometry with Z: CONTRACT premise = same keyword and coordinate tuples, Z marker added *)
+Lemma gpd_geometry_roundtrip_z : forall half orc g t,
+  kind_tag g = Some t -> wkt_wf half g ->
+  shapely (write orc None g) = with_zm [LZ] (write orc None g) ->
+  WktM.read half t (shapely (write orc None g)) = Ok g.
+Proof. intros half orc g t K W E. rewrite E, read_LZ. apply wkt_roundtrip; assumption. Qed.
+End ShapelyZ.
+
 (* D41: Shapely 2 writes MULTIPOINT ((x y), (x y)); the library's reader rejects that nesting
    for EVERY multipoint (not only for some) *)
 Lemma gpd_multipoint_refuted : forall half cs,
